@@ -23,6 +23,14 @@ Constructs == {
                     Class("Sq", <<>>, <<Parent("Shape", <<>>)>>, <<>>, <<Method("area", TRUE, <<>>, "Int", <<>>, <<Expr(IntL(4))>>)>>)>>, <<PrintS(MCall(New("Sq", <<>>), "area", <<>>))>>>>,
    <<"sqrt-in-fun", <<Fun("root", <<Param("x", "Float", Absent)>>, "Float", <<>>, <<Expr(Raw("sqrt x"))>>)>>, <<PrintS(StrL("r"))>>>>,
    <<"sqrt-in-method", <<Class("R", <<>>, <<>>, <<>>, <<Method("root", TRUE, <<Param("x", "Float", Absent)>>, "Float", <<>>, <<Expr(Raw("sqrt x"))>>)>>)>>, <<PrintS(StrL("r"))>>>>,
+   \* the typing names in their INFERRED and degenerate forms (no annotation in the source, no type arguments)
+   <<"empty-tuple",       <<>>, <<Def("e1", TRUE, "", TupL(<<>>))>>>>,
+   <<"empty-list",        <<>>, <<Def("e2", TRUE, "", ListL(<<>>))>>>>,
+   <<"inferred-tuple",    <<>>, <<Def("t2", TRUE, "", TupL(<<IntL(1), StrL("s")>>))>>>>,
+   <<"inferred-optional", <<Fun("mo", <<>>, "Int?", <<>>, <<Expr(NoneL)>>)>>, <<Def("o5", TRUE, "", Call("mo", <<>>))>>>>,
+   <<"inferred-callable", <<Fun("app2", <<Param("g", "() -> Int", Absent)>>, "Int", <<>>, <<Expr(Call("g", <<>>))>>)>>, <<Def("c2", TRUE, "Int", Call("app2", <<Lam(<<>>, IntL(3))>>))>>>>,
+   <<"bare-tuple-return", <<RawS("def bt() -> Tuple => ()")>>, <<PrintS(StrL("b"))>>>>,
+   <<"bare-list-param",   <<RawS("def bl(x: List) => print(\"l\")")>>, <<PrintS(StrL("b"))>>>>,
    \* the user's own imports next to a construct that needs the same module: plain, under an alias, single names under an alias
    <<"user-import-math+sqrt",        <<RawS("import math")>>,                         <<Def("r2", TRUE, "Float", Raw("sqrt 9.0"))>>>>,
    <<"user-import-math-alias+sqrt",  <<RawS("import math as m")>>,                    <<Def("r3", TRUE, "Float", Raw("sqrt 9.0"))>>>>,
